@@ -37,6 +37,8 @@ def key_sets(klepto):
         'alias-dash': ['a-b', 'a_b', 'k3', 'ab'],      # '-' -> '_' in directory names
         'tuple': [(1, 2), (1, '2'), ('a',), 'a'],
         'int': [1, 2, 3, 10],
+        # longer than a file name may be (NAME_MAX = 255), equal in their first 280 characters
+        'long': ['v' * 280 + 'k1', 'v' * 280 + 'k2', 'v' * 280 + 'k3', 'v' * 290],
         'keymap-pickle': [K.picklemap()(1), K.picklemap()(1, 2), K.picklemap()('a'), K.picklemap()(x=1)],
         'keymap-hash': [K.hashmap(algorithm='md5')(1), K.hashmap(algorithm='md5')(1, 2),
                         K.hashmap(algorithm='md5')('a'), K.hashmap(algorithm='md5')(x=1)],
@@ -50,13 +52,13 @@ def key_sets(klepto):
 def keysets_for(backend):
     base = backend.split('+')[0]
     if base in ('file-json', 'dir-json'):
-        return ['str', 'alias-dash', 'keymap-hash', 'keymap-str']           # JSON object keys are strings
+        return ['str', 'alias-dash', 'keymap-hash', 'keymap-str', 'long']   # JSON object keys are strings
     if base == 'dir-py':
         # the import-based reader needs K_<key> to be a module name: identifier-like strings only
         return ['str', 'alias-dash', 'keymap-hash']
     if base.startswith('sql'):
-        return ['str', 'alias-int-str', 'alias-dash', 'int', 'keymap-pickle', 'keymap-hash', 'keymap-str']
-    return ['str', 'alias-int-str', 'alias-dash', 'tuple', 'int', 'keymap-pickle', 'keymap-hash', 'keymap-str', 'keymap-raw']
+        return ['str', 'alias-int-str', 'alias-dash', 'int', 'keymap-pickle', 'keymap-hash', 'keymap-str', 'long']
+    return ['str', 'alias-int-str', 'alias-dash', 'tuple', 'int', 'keymap-pickle', 'keymap-hash', 'keymap-str', 'keymap-raw', 'long']
 
 
 # ---------------------------------------------------------------------------------------------
